@@ -4,6 +4,9 @@
 #include <cuda_emul.h>
 #include <sundials/sundials_matrix.h>
 typedef void *cusparseHandle_t;
+int cusparseCreate(cusparseHandle_t *h);
+int cusparseDestroy(cusparseHandle_t h);
+int cusparseSetStream(cusparseHandle_t h, cudaStream_t s);
 SUNMatrix SUNMatrix_cuSparse_NewBlockCSR(int nblocks, int blockrows, int blockcols, int blocknnz, cusparseHandle_t cusp, SUNContext sunctx);
 realtype *SUNMatrix_cuSparse_Data(SUNMatrix A);
 int SUNMatrix_cuSparse_NumBlocks(SUNMatrix A);
